@@ -6,7 +6,8 @@ From Coq Require Import String.
 From AS Require Import Base Effects.
 From AS.Gen Require Import Formats.
 From AS.Model Require Import Sgr Scrub.
-From AS.Proofs Require Import ScrubProofs FlagsProofs.
+From AS.Proofs Require Import ScrubProofs FlagsProofs ScrubProofs2.
+Local Open Scope Z_scope.
 Local Open Scope list_scope.
 
 (* A member name given as a string in any letter case, with spaces or hyphens for underscores
@@ -23,6 +24,84 @@ Theorem C14_table : forallb (fun n => str_eqb (norm_name n) n
                                     && match member_texts n with Some _ => true | None => false end) names = true.
 Proof. vm_compute. reflexivity. Qed.
 Print Assumptions C14_table.
+
+
+(* ---------- nesting: arbitrarily nested lists / tuples are flattened in order ---------- *)
+Theorem C14_flatten : forall l, scrub (FList l) = scrub (FList (flat_map flatten l)).
+Proof. exact scrub_flatten. Qed.
+Theorem C14_same_leaves : forall l1 l2, flat_map flatten l1 = flat_map flatten l2 -> scrub (FList l1) = scrub (FList l2).
+Proof. exact scrub_same_leaves. Qed.
+Theorem C14_single : forall f, is_list f = false -> scrub f = scrub (FList [f]).
+Proof. exact scrub_wrap. Qed.
+Print Assumptions C14_flatten.
+
+(* ---------- several ';'-separated directives in one string = the list of the directives
+   (each directive without ';' and not starting with '[': a leading '[' makes the WHOLE string a
+   verbatim - Examples scrub_join_bracket_counterexample* in Proofs/ScrubProofs2.v) ---------- *)
+Theorem C14_directives : forall parts, Forall part_ok parts ->
+  scrub (FStr (join [SEMI] parts)) = scrub (FList (map FStr parts)).
+Proof. exact scrub_join. Qed.
+Print Assumptions C14_directives.
+
+(* ---------- integer codes: as int, as decimal string, verbatim after '[' ---------- *)
+Theorem C14_int : forall z, 0 <= z -> scrub (FInt z) = OK [dec z].
+Proof. exact scrub_int_nonneg. Qed.
+Theorem C14_int_string : forall z, 0 <= z -> scrub (FStr (dec z)) = scrub (FInt z).
+Proof. exact scrub_str_dec. Qed.
+Theorem C14_verbatim : forall t, t <> [] -> scrub (FStr (LBR :: t)) = OK [t].
+Proof. exact scrub_verbatim. Qed.
+(* a complete colour group given as ints, as one string or nested gives ONE setting with the joined text *)
+Theorem C14_group_ints : forall g, colour_group g -> scrub (FList (map FInt g)) = OK [text_of_items g].
+Proof. exact scrub_colour_group_ints. Qed.
+Theorem C14_group_string : forall g, colour_group g -> scrub (FStr (text_of_items g)) = OK [text_of_items g].
+Proof. exact scrub_colour_group_string. Qed.
+Theorem C14_group_nested : forall g l, colour_group g -> flat_map flatten l = map FInt g ->
+  scrub (FList l) = OK [text_of_items g].
+Proof. exact scrub_colour_group_nested. Qed.
+Print Assumptions C14_int.
+Print Assumptions C14_group_nested.
+
+(* ---------- rgb / color256: clamping, 24-bit split, ul_/dul_ add 4/21, string forms ---------- *)
+Theorem C14_rgb_clamp : forall r g b comp, rgb3 r g b comp = rgb3' (clamp255 r) (clamp255 g) (clamp255 b) comp.
+Proof. exact rgb3_clamps. Qed.
+Theorem C14_rgb_24bit : forall v comp, 0 <= v < 16777216 ->
+  rgb1 v comp = rgb3 (v / 65536) ((v / 256) mod 256) (v mod 256) comp.
+Proof. exact rgb1_24bit. Qed.
+Theorem C14_rgb_string : forall pre comp r g b, prefix_of pre comp -> 0 <= r -> 0 <= g -> 0 <= b ->
+  scrub (FStr (print_rgb pre r g b)) = OK (rgb3 r g b comp).
+Proof. exact scrub_print_rgb. Qed.
+Theorem C14_rgb24_string : forall pre comp v, prefix_of pre comp -> 0 <= v ->
+  scrub (FStr (print_rgb24 pre v)) = OK (rgb1 v comp).
+Proof. exact scrub_print_rgb24. Qed.
+Theorem C14_color256_string : forall pre comp british v, prefix_of pre comp -> 0 <= v ->
+  scrub (FStr (print_color256 pre british v)) = OK (color256 v comp).
+Proof. exact scrub_print_color256. Qed.
+Theorem C14_components : forall comp tail,
+  color_texts comp tail =
+  match comp with
+  | FG => [text_of_items (38 :: tail)]
+  | BG => [text_of_items (48 :: tail)]
+  | UL => [dec 4; text_of_items (58 :: tail)]
+  | DUL => [dec 21; text_of_items (58 :: tail)]
+  end.
+Proof. intros comp tail. destruct comp; reflexivity. Qed.
+Print Assumptions C14_rgb_string.
+Print Assumptions C14_color256_string.
+
+(* ---------- rejected forms ---------- *)
+Theorem C14_err_negative : forall z, z < 0 -> scrub (FInt z) = Err ValueError.
+Proof. exact scrub_int_neg. Qed.
+Theorem C14_err_type : forall b, scrub (FOther b) = Err TypeError.
+Proof. exact scrub_other_alone. Qed.
+Theorem C14_err_selfref : scrub FSelfRef = Err ValueError.
+Proof. exact scrub_selfref_alone. Qed.
+Theorem C14_err_unknown_name : forall s, part_ok s -> s <> [] -> member_texts (norm_name s) = None ->
+  parse_rgb_string s = RNoMatch -> parse_int s = None -> scrub (FStr s) = Err ValueError.
+Proof. exact scrub_unknown_name. Qed.
+Theorem C14_err_bad_rgb : forall s, part_ok s -> member_texts (norm_name s) = None ->
+  parse_rgb_string s = RBad -> scrub (FStr s) = Err ValueError.
+Proof. exact scrub_bad_rgb. Qed.
+Print Assumptions C14_err_unknown_name.
 
 (* non-vacuity *)
 Example C14_example :
